@@ -207,3 +207,24 @@ func H_C16_fieldref() {
 	nd.Assert("C16.fieldref", build(t).Satisfy(doc) == ref.Satisfy(t, m))
 	nd.Reach("end")
 }
+
+//verif:harness props=C16,C10 tier=quick bounds="comparison/In leaves on an integer field at full 64-bit width: field int64 or uint64 (symbolic), literal int64 or uint64 (symbolic), operators Eq,Neq,Gt,GtEq,Lt,LtEq,In: same result as the documented numeric semantics (mixed signedness, values >= 2^63)"
+func H_C16_leaf_intwidth() {
+	mk := func(n string) interface{} {
+		if nd.Choice(n+".unsigned", 2) == 1 {
+			return nd.Uint64(n)
+		}
+		return nd.Int64(n)
+	}
+	fv, lv := mk("field"), mk("lit")
+	ops := []int{ref.OpEq, ref.OpNeq, ref.OpGt, ref.OpGtEq, ref.OpLt, ref.OpLtEq, ref.OpIn}
+	op := ops[nd.Choice("op", len(ops))]
+	t := &ref.Crit{Op: op, Field: "x", Val: lv}
+	if op == ref.OpIn {
+		t = &ref.Crit{Op: op, Field: "x", Vals: []interface{}{lv}}
+	}
+	doc := d.NewDocument()
+	doc.Set("x", fv)
+	nd.Assert("C16.leaf.int-width", build(t).Satisfy(doc) == ref.Satisfy(t, map[string]interface{}{"x": fv}))
+	nd.Reach("end")
+}
